@@ -409,6 +409,8 @@ func (r *HarnessResult) merge(p *HarnessResult) {
 	r.RacePathCaps += p.RacePathCaps
 	r.ConcCombos += p.ConcCombos
 	r.PrunedCombos += p.PrunedCombos
+	r.PrunedPrefixes += p.PrunedPrefixes
+	r.PartialQueries += p.PartialQueries
 	r.Events += p.Events
 	r.Candidates = append(r.Candidates, p.Candidates...)
 	r.Inconclusive = append(r.Inconclusive, p.Inconclusive...)
